@@ -11,16 +11,49 @@ from __future__ import annotations
 import ast
 import re
 
-from ..gen import EXTRA, REPO, Kernel, Untranslatable, all_stmts, find_assign, register, straightline
-from ..pyexpr import find_function, parse_file
+from ..gen import EXTRA, REPO, Kernel, Untranslatable, all_stmts, assign_value, find_assign, register, straightline
+from ..pyexpr import ExprTr, emit_def, find_function, parse_file
 
 SUB = "direct/common/subsample.py"
 GAUSS_PYX = "direct/common/_gaussian.pyx"
-MB = ("DirectVerif.Model.MaskBudget",)
+MB = ("DirectVerif.Model.MaskBudget", "DirectVerif.Model.C07Bisect")
+
+MM = ("DirectVerif.Model.C07Magic",)
+MAGIC = "MagicMaskFunc.mask_func"
+
+
+def if_assign(binds, target):
+    """value of `target` after `if c: target = a … else: target = b …`"""
+
+    def build(k, fn):
+        tr = ExprTr(binds)
+        for st in all_stmts(fn):
+            if isinstance(st, ast.If) and st.orelse:
+                def val(body):
+                    for s in body:
+                        if isinstance(s, ast.Assign) and len(s.targets) == 1 and ast.unparse(s.targets[0]) == target:
+                            return s.value
+                    return None
+                a, b = val(st.body), val(st.orelse)
+                if a is not None and b is not None:
+                    return emit_def(k.name, k.params, [], f"(if {tr.bool(st.test)} then {tr.int(a)} else {tr.int(b)})")
+        raise Untranslatable(f"if/else assignment of `{target}` not found")
+
+    return build
+
 
 register("C07", [
     Kernel("acs_pad", SUB, "CartesianVerticalMaskFunc.center_mask_func", ["num_cols", "num_low_freqs"],
            "MaskBudget.acsPad", straightline({"num_cols": "num_cols", "num_low_freqs": "num_low_freqs"}, "pad"), imports=MB),
+    # Magic: the integer part of the arithmetic (the rounded quotients are in EXTRA, over Rat)
+    Kernel("magic_low", SUB, MAGIC, ["l", "target"], "MaskBudget.magicLow",
+           assign_value({"num_low_freqs": "l", "target_cols_to_sample": "target"}, "num_low_freqs", nth=2), imports=MM),
+    Kernel("magic_rest", SUB, MAGIC, ["target", "l"], "MaskBudget.magicRest",
+           assign_value({"num_low_freqs": "l", "target_cols_to_sample": "target"}, "adjusted_target_cols_to_sample"), imports=MM),
+    Kernel("magic_off_pos", SUB, MAGIC, ["offset"], "MaskBudget.magicOffPos", if_assign({"offset": "offset"}, "offset_pos"), imports=MM),
+    Kernel("magic_off_neg", SUB, MAGIC, ["offset"], "MaskBudget.magicOffNeg", if_assign({"offset": "offset"}, "offset_neg"), imports=MM),
+    Kernel("magic_poslen", SUB, MAGIC, ["num_cols"], "MaskBudget.magicPosLen", assign_value({"num_cols": "num_cols"}, "poslen"), imports=MM),
+    Kernel("magic_neglen", SUB, MAGIC, ["num_cols"], "MaskBudget.magicNegLen", assign_value({"num_cols": "num_cols"}, "neglen"), imports=MM),
 ])
 
 
@@ -83,6 +116,8 @@ FALLBACK = {
     "equispaced_arange_step": (["off", "N", "a"], "Rat", "a"),
     "gaussian1d_request": (["N", "R", "L"], "Int", "MaskBudget.gaussianRequest (N / R) (L.floor)"),
     "gaussian2d_request": (["rows", "cols", "R", "L"], "Int", "MaskBudget.gaussianRequest (rows * cols / R) (L.floor)"),
+    "magic_target": (["N", "R"], "Int", "MaskBudget.roundHalfEven (N / R)"),
+    "magic_adjusted": (["N", "rest"], "Int", "if rest > 0 then MaskBudget.roundHalfEven (N / rest) else 0"),
 }
 
 
@@ -150,7 +185,71 @@ def _build(tree) -> dict[str, tuple[list[str], str, str]]:
         return ["rows", "cols", "R", "L"], "Int", static
 
     attempt("gaussian2d_request", g2)
+
+    mag = lambda: _method(tree, MAGIC)  # noqa: E731
+    attempt("magic_target", lambda: (["N", "R"], "Int",
+                                     RatTr({"num_cols": "N", "acceleration": "R"}).int(find_assign(mag(), "target_cols_to_sample").value)))
+
+    def magic_adjusted():
+        fn = mag()
+        d0 = find_assign(fn, "adjusted_acceleration", 0)
+        if not (isinstance(d0.value, ast.Constant) and d0.value.value == 0 and not isinstance(d0.value.value, bool)):
+            raise Untranslatable(f"default `{ast.unparse(d0)}`")
+        for st in all_stmts(fn):
+            if (isinstance(st, ast.If) and not st.orelse and len(st.body) == 1 and isinstance(st.body[0], ast.Assign)
+                    and ast.unparse(st.body[0].targets[0]) == "adjusted_acceleration"):
+                t = st.test
+                if not (isinstance(t, ast.Compare) and len(t.ops) == 1 and isinstance(t.ops[0], ast.Gt)
+                        and ast.unparse(t.left) == "adjusted_target_cols_to_sample" and ast.unparse(t.comparators[0]) == "0"):
+                    raise Untranslatable(f"guard `{ast.unparse(t)}`")
+                body = RatTr({"num_cols": "N", "adjusted_target_cols_to_sample": "rest"}).int(st.body[0].value)
+                return ["N", "rest"], "Int", f"if rest > (0 : Rat) then {body} else (0 : Int)"
+        raise Untranslatable("guarded assignment of `adjusted_acceleration` not found")
+
+    attempt("magic_adjusted", magic_adjusted)
     return out
+
+
+MAGIC_PLAN_EXPECTED = [
+    "offset=self.rng.randint(0,high=adjusted_acceleration)",
+    "mask_positive[offset_pos::adjusted_acceleration]=True",
+    "mask_negative[offset_neg::adjusted_acceleration]=True",
+    "mask_negative=np.flip(mask_negative)",
+    "mask.append(np.fft.fftshift(np.concatenate((mask_positive,mask_negative))))",
+    "mask[i]=np.logical_or(mask[i],acs_mask[i])",
+]
+
+
+def magic_plan(tree) -> tuple[list[str], str]:
+    """the statements of the frame loop of `MagicMaskFunc.mask_func` that draw, stride, flip, shift and unite
+    (everything except the integer locals translated as kernels and the `np.zeros` initialisations)"""
+    try:
+        fn = _method(tree, MAGIC)
+    except Untranslatable as e:
+        return MAGIC_PLAN_EXPECTED, f"skipped: {e}"
+    loops = [st for st in all_stmts(fn) if isinstance(st, ast.For)]
+    if len(loops) != 1:
+        return MAGIC_PLAN_EXPECTED, "skipped: frame loop not found"
+    norm = lambda n: ast.unparse(n).replace(" ", "")  # noqa: E731
+    ints = {"offset_pos", "offset_neg", "poslen", "neglen"}
+    toks = []
+
+    def walk(stmts):
+        for st in stmts:
+            if isinstance(st, ast.If):
+                walk(st.body)
+                walk(st.orelse)
+                continue
+            if isinstance(st, ast.Assign) and len(st.targets) == 1:
+                tgt = norm(st.targets[0])
+                if tgt in ints:
+                    continue
+                if isinstance(st.value, ast.Call) and norm(st.value.func) in ("np.zeros", "numpy.zeros"):
+                    continue
+            toks.append(norm(st))
+
+    walk(loops[0].body)
+    return toks, "translated"
 
 
 def _pyx_loop() -> tuple[list[str], str]:
@@ -195,6 +294,67 @@ def _poisson_skeleton(tree) -> tuple[list[str], str]:
         elif isinstance(st, ast.Return):
             toks.append("return:" + norm(st.value))
     return toks, "translated"
+
+
+UPDATE_EXPECTED = [("actual_acceleration<acceleration", "slope_min=slope"), ("else", "slope_max=slope")]
+INIT_EXPECTED = [("self.slopesisnotNone", "slope_min,slope_max=self.slopes"),
+                 ("else", "slope_min,slope_max=(0,max(num_rows,num_cols))")]
+OPTIONS_EXPECTED = [
+    ("crop_corner", "if:self.crop_corner|mask*=r<1|before:actual_acceleration"),
+    ("max_attempts", "_poisson(num_rows,num_cols,self.max_attempts,mask,radius_x,radius_y,seed)"),
+    ("tol", "abs(actual_acceleration-acceleration)<self.tol"), ("tol", "abs(actual_acceleration-acceleration)>=self.tol"),
+]
+
+
+def poisson_interval(tree):
+    """(midpoint expression over Rat, update table, initial-interval table, option-use table) of `poisson`"""
+    fn = _method(tree, "VariableDensityPoissonMaskFunc.poisson")
+    norm = lambda n: ast.unparse(n).replace(" ", "")  # noqa: E731
+    loops = [st for st in fn.body if isinstance(st, ast.While)]
+    if len(loops) != 1:
+        raise Untranslatable("bisection loop not found")
+    loop = loops[0]
+    # midpoint
+    mids = [st for st in loop.body if isinstance(st, ast.Assign) and norm(st.targets[0]) == "slope"]
+    if len(mids) != 1 or loop.body[0] is not mids[0]:
+        raise Untranslatable("`slope = …` is not the first statement of the loop")
+    mid = RatTr({"slope_min": "lo", "slope_max": "hi"}).rat(mids[0].value)
+    # update
+    upd = None
+    for st in loop.body:
+        if isinstance(st, ast.If) and st.orelse and len(st.body) == 1 and len(st.orelse) == 1 \
+                and isinstance(st.body[0], ast.Assign) and isinstance(st.orelse[0], ast.Assign):
+            upd = [(norm(st.test), norm(st.body[0])), ("else", norm(st.orelse[0]))]
+    if upd is None or loop.body[-1].__class__ is not ast.If or norm(loop.body[-1].test) != upd[0][0]:
+        raise Untranslatable("interval update is not the last statement of the loop")
+    # nothing else assigns the interval inside the loop
+    for st in loop.body[:-1]:
+        for n in ast.walk(st):
+            if isinstance(n, ast.Name) and isinstance(n.ctx, ast.Store) and n.id in ("slope_min", "slope_max"):
+                raise Untranslatable("interval assigned outside the update")
+    # initial interval
+    init = None
+    for st in fn.body:
+        if isinstance(st, ast.If) and st.orelse and any(
+                isinstance(n, ast.Name) and isinstance(n.ctx, ast.Store) and n.id == "slope_min" for n in ast.walk(st)):
+            if len(st.body) == 1 and len(st.orelse) == 1:
+                init = [(norm(st.test), norm(st.body[0])), ("else", norm(st.orelse[0]))]
+    if init is None:
+        raise Untranslatable("initial interval not found")
+    # options
+    opts = []
+    for n in ast.walk(fn):
+        if isinstance(n, ast.Compare) and "self.tol" in norm(n):
+            opts.append(("tol", norm(n)))
+    for n in ast.walk(fn):
+        if isinstance(n, ast.Call) and norm(n.func) == "_poisson":
+            opts.append(("max_attempts", norm(n)))
+    idx_actual = [i for i, st in enumerate(loop.body) if isinstance(st, ast.Assign) and norm(st.targets[0]) == "actual_acceleration"]
+    for i, st in enumerate(loop.body):
+        if isinstance(st, ast.If) and "self.crop_corner" in norm(st.test):
+            where = "before" if idx_actual and i < idx_actual[0] else "after"
+            opts.append(("crop_corner", "if:" + norm(st.test) + "|" + ";".join(norm(b) for b in st.body) + f"|{where}:actual_acceleration"))
+    return mid, upd, init, sorted(opts)
 
 
 CHOOSE_EXPECTED = [
@@ -350,6 +510,25 @@ def _extra():
     status["choose_acceleration_skeleton"] = st
     chunks.append("/-- skeleton of `BaseMaskFunc.choose_acceleration` -/\n"
                   "def chooseSkeleton : List String := [\n" + ",\n".join("  " + _lean_str(t) for t in ctoks) + "]\n")
+    try:
+        if tree is None:
+            raise Untranslatable("unparsable")
+        pmid, pupd, pinit, popts = poisson_interval(tree)
+        status["poisson_interval"] = "translated"
+    except Untranslatable as e:
+        pmid, pupd, pinit, popts = "MaskBudget.exactMid lo hi", UPDATE_EXPECTED, INIT_EXPECTED, OPTIONS_EXPECTED
+        status["poisson_interval"] = f"skipped: {e}"
+    pairs = lambda rows: "[\n" + ",\n".join(f"  ({_lean_str(a)}, {_lean_str(b)})" for a, b in rows) + "]\n"  # noqa: E731
+    chunks.append("/-- `slope = …` of the bisection loop of `poisson`, over Rat -/\n" + _emit("poisson_mid", ["lo", "hi"], "Rat", pmid))
+    chunks.append("/-- which end of the interval each branch of the last `if` of the loop moves -/\n"
+                  "def poissonUpdate : List (String × String) := " + pairs(pupd))
+    chunks.append("/-- initial interval of the bisection -/\ndef poissonInit : List (String × String) := " + pairs(pinit))
+    chunks.append("/-- where the constructor options `tol`, `max_attempts`, `crop_corner` are used in `poisson` -/\n"
+                  "def poissonOptions : List (String × String) := " + pairs(popts))
+    mtoks, st = magic_plan(tree) if tree is not None else (MAGIC_PLAN_EXPECTED, "skipped: unparsable")
+    status["magic_frame_plan"] = st
+    chunks.append("/-- frame loop of `MagicMaskFunc.mask_func`: draw, strided assignments, flip, shift, union with the ACS row -/\n"
+                  "def magicPlan : List String := [\n" + ",\n".join("  " + _lean_str(t) for t in mtoks) + "]\n")
     post, st = poisson_post(tree)
     status["poisson_post_statements"] = st
     chunks.append("/-- statements of `poisson` after the last evaluation of `actual_acceleration` up to `return`: (text, modifies `mask`) -/\n"
